@@ -193,6 +193,10 @@ def binop(ip, op, a, b, inplace=False):
 def py_eq(ip, a, b):
     """python ==  -> bool or z3 Bool"""
     c = ip.c
+    if isinstance(a, Sym) and a.t.sort() == Val and (a.ty or "").startswith("opt:"):
+        a = ip.resolve(a)
+    if isinstance(b, Sym) and b.t.sort() == Val and (b.ty or "").startswith("opt:"):
+        b = ip.resolve(b)
     if not isinstance(a, Sym) and not isinstance(b, Sym):
         if isinstance(a, PList) or isinstance(b, PList):
             if not (isinstance(a, PList) and isinstance(b, PList)):
@@ -266,7 +270,7 @@ def list_eq(ip, la, lb):
     n = c.heap.get("llen")
     e = c.heap.get("lelem")
     j = z3.Int("leq_j")
-    return z3.And(n[la] == n[lb], z3.ForAll([j], z3.Implies(z3.And(0 <= j, j < n[la]), e[la][j] == e[lb][j])))
+    return z3.And(n[la] == n[lb], smt.FA([j], z3.Implies(z3.And(0 <= j, j < n[la]), e[la][j] == e[lb][j])))
 
 
 def compare(ip, op, a, b):
@@ -383,8 +387,8 @@ def list_find(ip, l, x):
     p = c.fresh("pos", I)
     j = z3.Int("lf_j")
     c.assume(z3.Implies(found, z3.And(0 <= p, p < n, e[p] == xv,
-                                      z3.ForAll([j], z3.Implies(z3.And(0 <= j, j < p), e[j] != xv)))))
-    c.assume(z3.Implies(z3.Not(found), z3.ForAll([j], z3.Implies(z3.And(0 <= j, j < n), e[j] != xv))))
+                                      smt.FA([j], z3.Implies(z3.And(0 <= j, j < p), e[j] != xv)))))
+    c.assume(z3.Implies(z3.Not(found), smt.FA([j], z3.Implies(z3.And(0 <= j, j < n), e[j] != xv))))
     return found, p
 
 
@@ -530,12 +534,11 @@ def delitem(ip, o, k):
             ip.py_raise(KeyError, "key")
         c.fact(c.sv().dict_wf(d))
         p = dp[d][kv]
-        i = z3.Int("del_i")
-        kk = z3.Const("del_k", Val)
+        okd, opd = dk[d], dp[d]
         c.write_array("dmap", z3.Store(dm, d, z3.Store(dm[d], kv, smt.absent)))
         c.write_array("dn", z3.Store(dn, d, dn[d] - 1))
-        c.write_array("dkey", z3.Store(dk, d, z3.Lambda([i], z3.If(i < p, dk[d][i], dk[d][i + 1]))))
-        c.write_array("dpos", z3.Store(dp, d, z3.Lambda([kk], z3.If(dp[d][kk] > p, dp[d][kk] - 1, dp[d][kk]))))
+        c.write_array("dkey", z3.Store(dk, d, c.def_array("delk", I, lambda i: z3.If(i < p, okd[i], okd[i + 1]))))
+        c.write_array("dpos", z3.Store(dp, d, c.def_array("delp", Val, lambda kk: z3.If(opd[kk] > p, opd[kk] - 1, opd[kk]))))
         return
     if isinstance(o, PDict):
         if o.frozen:
@@ -597,18 +600,17 @@ def list_insert(ip, o, i, v):
     ln = n[l]
     idx = z3.If(it < 0, z3.If(it + ln < 0, 0, it + ln), z3.If(it > ln, ln, it))
     idx = z3.simplify(idx)
-    j = z3.Int("ins_j")
     old = e[l]
-    c.write_array("lelem", z3.Store(e, l, z3.Lambda([j], z3.If(j < idx, old[j], z3.If(j == idx, c.to_val(v), old[j - 1])))))
+    vv = c.to_val(v)
+    c.write_array("lelem", z3.Store(e, l, c.def_array("ins", I, lambda j: z3.If(j < idx, old[j], z3.If(j == idx, vv, old[j - 1])))))
     c.write_array("llen", z3.Store(n, l, ln + 1))
 
 
 def list_remove_at(ip, l, p):
     c = ip.c
     n, e = c.heap.get("llen"), c.heap.get("lelem")
-    j = z3.Int("rm_j")
     old = e[l]
-    c.write_array("lelem", z3.Store(e, l, z3.Lambda([j], z3.If(j < p, old[j], old[j + 1]))))
+    c.write_array("lelem", z3.Store(e, l, c.def_array("rm", I, lambda j: z3.If(j < p, old[j], old[j + 1]))))
     c.write_array("llen", z3.Store(n, l, n[l] - 1))
 
 
@@ -671,9 +673,8 @@ def list_extend(ip, a, b):
         raise Unsupported("extend with non-list")
     la, lb = list_ref(ip, a), list_ref(ip, b)
     n, e = c.heap.get("llen"), c.heap.get("lelem")
-    j = z3.Int("ext_j")
     ea, eb, na = e[la], e[lb], n[la]
-    c.write_array("lelem", z3.Store(e, la, z3.Lambda([j], z3.If(j < na, ea[j], eb[j - na]))))
+    c.write_array("lelem", z3.Store(e, la, c.def_array("ext", I, lambda j: z3.If(j < na, ea[j], eb[j - na]))))
     c.write_array("llen", z3.Store(n, la, na + n[lb]))
 
 
@@ -718,8 +719,8 @@ def dict_merge(ip, parts):
     a, b = [p if isinstance(p, Sym) else c.promote_dict(p) for p in parts]
     r = c.alloc(KIND_DICT)
     dm, dn, dk, dp = c.heap.get("dmap"), c.heap.get("dn"), c.heap.get("dkey"), c.heap.get("dpos")
-    k = z3.Const("mg_k", Val)
-    c.write_array("dmap", z3.Store(dm, r, z3.Lambda([k], z3.If(dm[b.t][k] != smt.absent, dm[b.t][k], dm[a.t][k]))))
+    mb, ma = dm[b.t], dm[a.t]
+    c.write_array("dmap", z3.Store(dm, r, c.def_array("mg", Val, lambda k: z3.If(mb[k] != smt.absent, mb[k], ma[k]))))
     n = c.fresh("mg_n", I)
     c.assume(z3.And(n >= dn[a.t], n >= dn[b.t], n <= dn[a.t] + dn[b.t]))
     c.write_array("dn", z3.Store(dn, r, n))
